@@ -246,6 +246,9 @@ func (e *evalCtx) ident(name string) sval {
 	if v, ok := e.t.ghostVals[name]; ok {
 		return v
 	}
+	if srt, ok := e.t.h.sorts["ghost:u:"+name]; ok {
+		return sval{term: e.t.h.get(e.st, "ghost:u:"+name), sort: srt}
+	}
 	// a reassigned parameter: outside old() the name means its current value
 	if e.locals && !e.inOld && e.fn == e.t.fn {
 		if v, ok := e.local(name); ok {
@@ -818,11 +821,18 @@ func (e *evalCtx) callExpr(x *sx) sval {
 		if args[0].op != "str" {
 			e.fail("sel(\"select#n\")")
 		}
-		idx, ok := t.selIdx[args[0].val]
-		if !ok {
+		found := false
+		for _, st := range t.sites {
+			if st == args[0].val {
+				found = true
+			}
+		}
+		if !found {
 			e.fail("unknown select %q", args[0].val)
 		}
-		return intv(idx)
+		// state-based: -2 on paths that have not executed that select
+		hv := t.h.reg("ghost:sel:"+args[0].val, "Int")
+		return intv(t.h.get(e.st, hv))
 	case "now":
 		// now(x): x with element reads taken from the evaluation state (drops a snapshot pin)
 		v := e.eval(args[0])
